@@ -203,7 +203,7 @@ def run_case(case: dict[str, Any], wd: Path) -> dict[str, Any]:
         scn["world"]["scalars"] = dict(temp=dict(kind="coded"))
         scn["run"]["state"] = dict(instance_variables=dict(temp="float"), default_values=dict(temp=0.0))
     pre_world = None
-    if fam in ("c09", "vinfo"):
+    if fam in ("c09", "vinfo") and not (fam == "c09" and case["idx"] % 3 == 0):  # (not before the two-runs-on-the-same-files history: no Grid of this file may exist yet)
         # particles exactly on level depths (as the model itself computes them, bit for bit): uppermost, lowest and a middle rho-level
         from vmon import world as W  # noqa: PLC0415
 
